@@ -112,6 +112,8 @@ MODEL_PATHS = [
     ("model", "sub/../m.onnx"),
 ]
 LOAD_ENTRIES = ["load_numpy", "load_tobytes", "load_tofile"]
+# where in the model file the external tensor sits ("all tensors of the model" get the base directory)
+PLACES = ["main_init", "main_attr", "main_attr_list", "sub_init", "sub_attr", "sub2_init", "sub2_attr", "func_attr", "func_sub_attr", "func_sub_init"]
 # multi-step histories on ONE tensor object: read, change the world or the base directory, read again
 HIST_LOCS = ["a.bin", "sub/b.bin", "sub/deeper/c.bin", "link_in", "dlink_in/b.bin"]
 HIST_FIRST = ["numpy", "tobytes", "tofile_bytesio", "asarray", "none"]
@@ -233,7 +235,7 @@ def gen_case(run_seed: int, tier: str, index: int = 0) -> dict:
             continue
         if r.random() < 0.25:
             mp = r.randrange(len(MODEL_PATHS))
-            triples.append({"level": "load", "model_path": mp, "loc": loc, "entry": r.choice(LOAD_ENTRIES), "off": off, "len": ln})
+            triples.append({"level": "load", "model_path": mp, "loc": loc, "entry": r.choice(LOAD_ENTRIES), "off": off, "len": ln, "place": r.choice(PLACES) if r.random() < 0.6 else "main_init"})
         else:
             triples.append({"level": "tensor", "base": r.randrange(len(BASES)), "loc": loc, "entry": r.choice(TENSOR_ENTRIES), "off": off, "len": ln})
     return {"property": PROPERTY, "run_seed": run_seed, "triples": triples}
@@ -284,12 +286,64 @@ def _model_with(t) -> ir.Model:
     return ir.Model(g, ir_version=10)
 
 
-def _write_model_file(path: str, loc: str, off: int, ln: int) -> None:
+def _if_node(container, name: str):
+    """Append an If node with two empty branches to a GraphProto/FunctionProto; returns (node, then_graph)."""
+    n = container.node.add()
+    n.op_type = "If"
+    n.name = name
+    n.input.append("cond")
+    n.output.append(name + "_out")
+    graphs = []
+    for br in ("then_branch", "else_branch"):
+        a = n.attribute.add()
+        a.name = br
+        a.type = onnx.AttributeProto.GRAPH
+        a.g.name = name + "_" + br
+        graphs.append(a.g)
+    return n, graphs[0]
+
+
+def _const_node(container, list_attr: bool = False):
+    n = container.node.add()
+    n.op_type = "Constant"
+    n.name = "const_x"
+    n.output.append("cx")
+    a = n.attribute.add()
+    if list_attr:
+        a.name = "values"
+        a.type = onnx.AttributeProto.TENSORS
+        return a.tensors.add()
+    a.name = "value"
+    a.type = onnx.AttributeProto.TENSOR
+    return a.t
+
+
+def _write_model_file(path: str, loc: str, off: int, ln: int, place: str = "main_init") -> None:
     m = onnx.ModelProto()
     m.ir_version = 10
     m.opset_import.add().version = 20
     m.graph.name = "g"
-    t = m.graph.initializer.add()
+    ci = m.graph.input.add()
+    ci.name = "cond"
+    ci.type.tensor_type.elem_type = onnx.TensorProto.BOOL
+    if place.startswith("func"):
+        f = m.functions.add()
+        f.domain, f.name = "fd", "fn"
+        f.input.append("cond")
+        f.opset_import.add().version = 20
+        m.opset_import.add().domain = "fd"
+        m.opset_import[-1].version = 1
+        cont = f
+    else:
+        cont = m.graph
+    where = place.split("_", 1)[1] if place.startswith("func") else place
+    depth = 2 if where.startswith("sub2") else (1 if where.startswith("sub") else 0)
+    for d in range(depth):
+        _n, cont = _if_node(cont, f"if{d}")
+    if where.endswith("init"):
+        t = cont.initializer.add()
+    else:
+        t = _const_node(cont, list_attr=where.endswith("attr_list"))
     t.name = "x"
     t.data_type = onnx.TensorProto.UINT8
     t.dims.append(ln)
@@ -299,6 +353,38 @@ def _write_model_file(path: str, loc: str, off: int, ln: int) -> None:
         e.key, e.value = k, v
     with open(path, "wb") as f:
         f.write(m.SerializeToString())
+
+
+def _find_external(model):
+    """The single external tensor of a loaded model, wherever it sits."""
+    found = []
+
+    def graph(g):
+        inits = getattr(g, "initializers", None)
+        if inits is not None:
+            for v in inits.values():
+                if isinstance(v.const_value, ir.ExternalTensor):
+                    found.append(v.const_value)
+        for n in g:
+            for a in n.attributes.values():
+                if a.is_ref():
+                    continue
+                if a.type == ir.AttributeType.TENSOR and isinstance(a.value, ir.ExternalTensor):
+                    found.append(a.value)
+                elif a.type == ir.AttributeType.TENSORS:
+                    found.extend(x for x in a.value if isinstance(x, ir.ExternalTensor))
+                elif a.type == ir.AttributeType.GRAPH:
+                    graph(a.value)
+                elif a.type == ir.AttributeType.GRAPHS:
+                    for sg in a.value:
+                        graph(sg)
+
+    graph(model.graph)
+    for f in model.functions.values():
+        graph(f)
+    if len(found) != 1:
+        raise AssertionError(f"harness: expected one external tensor in the loaded model, found {len(found)}")
+    return found[0]
 
 
 def _tensor_entry(entry: str, t, root: str, seam) -> bytes:
@@ -532,14 +618,16 @@ def _run(case: dict, root: str, res: dict) -> None:
                     else:
                         raise ValueError(entry)
                 else:
-                    _write_model_file(os.path.join(root, "model", "m.onnx"), loc, off, ln)
+                    place = tr.get("place", "main_init")
+                    _write_model_file(os.path.join(root, "model", "m.onnx"), loc, off, ln, place)
                     mp = mp_t.replace("{ROOT}", root)
                     if mp.startswith("PATH:"):
                         import pathlib
 
                         mp = pathlib.Path(mp[5:])
                     model = _io.load(mp)
-                    t = model.graph.initializers["x"].const_value
+                    t = _find_external(model)
+                    inc("place_" + place)
                     bd = t.base_dir
                     # the loaded tensor's base directory must be the model's directory, whatever the spelling
                     if not bd or os.path.realpath(os.path.join(cwd, os.fspath(bd))) != realbase:
@@ -568,8 +656,8 @@ def _run(case: dict, root: str, res: dict) -> None:
             v = None
             key = None
             if not loaded_base_ok:
-                v = ("base-dir-after-load", f"onnx_ir.load({MODEL_PATHS[tr['model_path']][1]!r}) with cwd={cwd_rel}: external tensor base_dir={bd!r} does not resolve to the model's directory")
-                key = f"base-dir-after-load|{MODEL_PATHS[tr['model_path']][1]}"
+                v = ("base-dir-after-load", f"onnx_ir.load({MODEL_PATHS[tr['model_path']][1]!r}) with cwd={cwd_rel}: external tensor base_dir={bd!r} of the tensor at {tr.get('place', 'main_init')} does not resolve to the model's directory")
+                key = f"base-dir-after-load|{MODEL_PATHS[tr['model_path']][1]}|{tr.get('place', 'main_init')}"
             elif bad:
                 v = ("read-forbidden-file", f"{entry} on location {tr['loc']!r} (base {base!r}, cwd {cwd_rel}) read bytes of {bad[0][1]} via {bad[0][0]} ({'returned' if raised is None else 'raised ' + type(raised).__name__})")
             elif raised is None:
@@ -656,6 +744,12 @@ def shrink_candidates(case: dict, violation: dict):
         c = copy.deepcopy(case)
         c["triples"][0]["base"] = 0
         yield c
+    if tr["level"] == "load" and tr.get("place", "main_init") != "main_init":
+        for simpler in ("main_init", "main_attr", "sub_init", "sub_attr", "func_attr"):
+            if simpler != tr["place"]:
+                c = copy.deepcopy(case)
+                c["triples"][0]["place"] = simpler
+                yield c
 
 
 def finding_key(case: dict, violation: dict) -> str:
